@@ -66,6 +66,18 @@ func ruleAtt(svc rules.Service, pub []byte, src, tgt uint64) rules.Result {
 		BeaconBlockRoot: Root32(9), Source: &rules.Checkpoint{Epoch: src, Root: Root32(1)}, Target: &rules.Checkpoint{Epoch: tgt, Root: Root32(2)}})
 }
 
+// ruleAtts asks the batch rule about one attestation per key.
+func ruleAtts(svc rules.Service, pubs [][]byte, srcs, tgts []uint64) []rules.Result {
+	ms := make([]*rules.ReqMetadata, len(pubs))
+	ds := make([]*rules.SignBeaconAttestationData, len(pubs))
+	for i := range pubs {
+		ms[i] = meta(pubs[i])
+		ds[i] = &rules.SignBeaconAttestationData{Domain: Dom(DomainAttester, 0), Slot: tgts[i] * 32, BeaconBlockRoot: Root32(9),
+			Source: &rules.Checkpoint{Epoch: srcs[i], Root: Root32(1)}, Target: &rules.Checkpoint{Epoch: tgts[i], Root: Root32(2)}}
+	}
+	return svc.OnSignBeaconAttestations(context.Background(), ms, ds)
+}
+
 func ruleProp(svc rules.Service, pub []byte, slot uint64) rules.Result {
 	return svc.OnSignBeaconProposal(context.Background(), meta(pub), &rules.SignBeaconProposalData{Domain: Dom(DomainProposer, 0), Slot: slot,
 		ParentRoot: Root32(3), StateRoot: Root32(4), BodyRoot: Root32(9)})
